@@ -180,7 +180,13 @@ func (checkSchema) checkArrayNode(node schema.Node) {
 
 // check all constraints for compatibility with the json-type of the node
 func (checkSchema) checkCompatibilityOfConstraints(node schema.Node) {
-	_, isMixed := node.(*schema.MixedNode)
+	// The root of a rule-set of the "or" rule describes values of the JSON type its
+	// "type" rule declares. Without that rule it borrows the type of the EXAMPLE the
+	// "or" rule is written on, which says nothing about the rule-set.
+	mixed, isMixed := node.(*schema.MixedNode)
+	if isMixed && mixed.IsJsonTypeDeclared() {
+		isMixed = false
+	}
 	_, isMixedValue := node.(*schema.MixedValueNode)
 
 	err := node.ConstraintMap().Each(func(k constraint.Type, v constraint.Constraint) error {
